@@ -246,7 +246,7 @@ def run(sc):
                 if pr: fails.append({'key': f"kiq/{asyncs}/{fail_at}", 'failed_clauses': pr})
     if 'loop' in which:
         for start_off in (0.0, 0.4, 30.0, 59.7):
-            for oneshots in ([90.0], [30.0, 60.0, 60.5, 61.0, 61.5], [59.9, 120.0, 121.0], [-5.0, 200.0]):
+            for oneshots in ([90.0], [30.0, 60.0, 60.5, 61.0, 61.5], [59.9, 120.0, 121.0], [-5.0, 200.0], [30.2, 45.1, 60.3, 118.05]):          # the last set: due times with a small sub-second part, picked up by a first poll that starts later within its second
                 for crons, failing_source, failing_send in ((['* * * * *'], False, False), (['*/2 * * * *', '1,3 * * * *'], True, False), (['* * * * *'], False, True)):
                     pr = loop_case(start_off, 330.0, oneshots, crons, failing_source, failing_send); n += 1
                     if pr: fails.append({'key': f"loop/start+{start_off}/oneshots={oneshots}/crons={crons}/{failing_source}/{failing_send}", 'failed_clauses': pr})
